@@ -677,6 +677,14 @@ def calls_C08(g, mb, cb):
         c.append("fext none")               # the Kokkevis routine takes no external forces
         c.append("call FDC 0 1 1")
         c.append("call FDC 3 0 1")          # Kokkevis: contact-only sets
+    # the per-body constraint wrenches of the multipliers just computed (ConstraintSet::calcForces):
+    # root-frame mode with kinematics update, local mode on the cache; certificates CF.map / CF.opp*
+    c.append("call CF 1 1")
+    c.append("call CF 0 0")
+    if not cb.has_loop:
+        # Kokkevis on the same set after the wrench read-out: nothing the read-out leaves in the
+        # per-set scratch may enter (FDC.eom / FDC.acc / FDC.agree)
+        c.append("call FDC 3 0 1")
     return c
 
 
@@ -702,6 +710,9 @@ def calls_C10(g, mb, cb):
     for method in (0, 1, 2):
         c.append("cs_solver %d" % g.r.randint(0, 2))
         c.append("call IMP %d" % method)
+    # the per-body impulses of the impulse multipliers just computed (ConstraintSet::calcImpulses): CI.map
+    c.append("call CI 1 1")
+    c.append("call CI 0 0")
     return c
 
 
@@ -930,6 +941,7 @@ def gen_C13(seed, tier):
     # constraint-set workspaces
     m2 = nmodels(tier, 8, 60)
     made = 0
+    made_kok = 0
     tries = 0
     while made < m2 and tries < 5 * m2:
         tries += 1
@@ -947,7 +959,15 @@ def gen_C13(seed, tier):
         if qdA is None:
             continue
         stA[1] = "qd %d %s" % (mb.nv, G.frs(qdA))
-        hist = g.r.sample(["call IMP 0", "call FDC 1 1 0", "call CSV 1 0", "call ID", "call FD", "call CRBA 1"], 2)
+        hist = g.r.sample(["call IMP 0", "call FDC 1 1 0", "call CSV 1 0", "call ID", "call FD", "call CRBA 1",
+                            "call CF 0 0 0"], 2)
+        if not cb.has_loop and (made_kok == 0 or g.r.random() < 0.5):
+            # contact-only sets: the test-force method as the later call, after a dynamics call and a
+            # read-out of the constraint wrenches on the same set (per-set scratch state)
+            later = "call FDC 3 0 0"
+            hist = [g.r.choice(["call FDC 0 1 0", "call FDC 1 1 0", "call IMP 0"]),
+                    g.r.choice(["call CF 0 0 0", "call CF 1 1 0", "call CI 0 0 0"])]
+            made_kok += 1
         ca, cb_ = "c13cp_%d" % made, "c13cq_%d" % made
         out += ["case " + ca, grav] + mb.lines + pre + [later]
         out += ["case " + cb_, grav] + mb.lines + list(cb.lines) + ["cs_bind"] + stA + hist + \
@@ -1566,7 +1586,7 @@ PROPS = {
             "rule": "every compact operator of SpatialAlgebraOperators.h / Quaternion.h / rbdl_mathutils on random rational arguments (rational rotations, translations, inertias, unit quaternions incl. rotations by half a turn with trace -1, diagonally dominant shuffled systems for the Gauss solver); distinct = number of (operator, argument) pairs",
             "explanation": "46 theorems: each compact operator equals its 6x6 matrix definition, composition laws, power invariance, quaternion laws; correspondence: the C++ operator vs the Lean definition on explicit arguments",
             "assumptions": COMMON_ASSUMPTIONS},
-    "C08": {"gen": gen_C08, "extra_props": ["C08Phys", "C08PhysKkt"],
+    "C08": {"gen": gen_C08, "extra_props": ["C08Phys", "C08PhysKkt", "C08Forces"],
             "rule": "random models with contact sets (1-3 orthonormal normals per point, 1-2 points, movable / fixed bodies) and loop constraints placed on the manifold with exact kinematics (classes: predecessor = base; ball (3 translations); rotational axes with the predecessor frame away from the base origin; partial translations / frames separated along free axes), velocities projected exactly on G qdot = 0, Baumgarte on / off, external forces; methods direct / range-space / null-space x 3 solvers, Kokkevis for contact-only sets",
             "explanation": "certificates evaluated with the specification: H q'' + N = tau + G^T lambda, G q'' = gamma (second jet of phi incl. the Baumgarte term), agreement of the methods",
             "assumptions": COMMON_ASSUMPTIONS + ["constraint Jacobian smallest singular value >= 0.05 (checked exactly before a case is emitted)"]},
